@@ -323,11 +323,13 @@ impl Database {
             // Run recovery through recuperator
             recuperator.run_recovery(&analysis).map_err(box_err)?;
 
-            // Truncate WAL
-            pager.write().truncate_wal().map_err(box_err)?;
-
             // Commit recovery transaction
             tx_ctx.commit_transaction().map_err(box_err)?;
+
+            // Checkpoint: the redone pages only exist in the cache so far. They must reach the
+            // data file before the log that describes them is truncated (flush does both, in
+            // that order), otherwise a second crash loses every recovered transaction.
+            pager.write().flush().map_err(box_err)?;
 
             Ok(())
         })?;
